@@ -177,3 +177,20 @@ fn vfind_c18_generated_keys_with_leading_zero_byte() {
     }
     assert!(seen_short_priv && seen_short_pub, "no key with a leading zero byte found in the sample");
 }
+
+/// C14 / F13: a node that dials one of its own addresses (not known to be its own) meets itself through a SECOND
+/// handshake object with a different salt; the handshake must abort with "connected to self".
+#[test]
+fn vfind_c14_node_meets_itself_through_second_handshake_object() {
+    use crate::crypto::{Config as CryptoCfg, Crypto, MessageResult};
+    use crate::util::MsgBuffer;
+    let cfg = CryptoCfg { password: Some("vfind".to_string()), ..Default::default() };
+    let crypto = Crypto::new([42; 16], &cfg).unwrap();
+    // the object created by connect_sock() and the one created by handle_net_message() for an unknown sender
+    let mut dialler = crypto.peer_instance(vec![1u8]);
+    let mut responder = crypto.peer_instance(vec![1u8]);
+    let mut msg = MsgBuffer::new(16);
+    dialler.initialize(&mut msg).unwrap();
+    let res = responder.handle_message(&mut msg);
+    assert!(res.is_err(), "the node answered its own ping: {:?}", res.map(|r| r == MessageResult::Reply));
+}
